@@ -257,8 +257,12 @@ func (r *c06Run) Main(s *sim.Sim) {
 			over = -over
 		}
 		over = 1 + over%(3*int(cl.Ack.RecvBuf))
-		base, _ := encodeService(writeReq(e.nodeID("big"), []byte{}))
-		payload := srvMaxMsg + over - len(base) - 40
+		// exact size of the message body the server will measure (type id + request with
+		// the header sendWithToken adds); a byte string grows the body byte for byte
+		probe := writeReq(e.nodeID("big"), []byte{})
+		probe.SetHeader(&ua.RequestHeader{AuthenticationToken: cs.AuthenticationToken, Timestamp: time.Now(), RequestHandle: cl.nextReq, AdditionalHeader: ua.NewExtensionObject(nil)})
+		base, _ := encodeService(probe)
+		payload := srvMaxMsg + over - len(base)
 		before := e.ns.Node(e.nodeID("big")).Value()
 		svc, err = sendWithToken(writeReq(e.nodeID("big"), fill(5, payload)))
 		after := e.ns.Node(e.nodeID("big")).Value()
@@ -267,7 +271,7 @@ func (r *c06Run) Main(s *sim.Sim) {
 			served = true
 		}
 		if served || before != after {
-			s.Fail("C06", "limit-ignored", "server-serves-message-over-its-own-limit", "the server announced MaxMessageSize %d and served a request of about %d bytes (%d over; response %T err=%v, value changed: %v)", srvMaxMsg, srvMaxMsg+over, over, svc, err, before != after)
+			s.Fail("C06", "limit-ignored", "server-serves-message-over-its-own-limit", "the server announced MaxMessageSize %d and served a request of %d bytes (%d over; response %T err=%v, value changed: %v)", srvMaxMsg, srvMaxMsg+over, over, svc, err, before != after)
 			return
 		}
 		s.Probe("oversized-request-refused-by-server")
